@@ -153,10 +153,50 @@ func (e *Engine) allocGlobal(st *State, g *ssa.Global, poison bool) *PtrV {
 	return p
 }
 
+type initSnap struct {
+	objs    map[int]*Obj
+	globals map[*ssa.Global]int
+}
+
+// snapshotInit records the heap effect of a completed package initializer so
+// that other paths install it instead of re-executing (initializers are
+// deterministic and run before any harness state exists in the real program).
+func (e *Engine) snapshotInit(st *State, fr *Frame) {
+	if fr.initPkg == nil {
+		return
+	}
+	sn := &initSnap{objs: map[int]*Obj{}, globals: map[*ssa.Global]int{}}
+	for id, o := range st.heap {
+		if id > fr.initStart {
+			sn.objs[id] = o
+		}
+	}
+	for g, id := range st.globals {
+		if g.Pkg == fr.initPkg {
+			sn.globals[g] = id
+			sn.objs[id] = st.heap[id]
+		}
+	}
+	e.initCache[fr.initPkg] = sn
+}
+
 func (e *Engine) runInit(st *State, pkg *ssa.Package) {
 	st.inited[pkg] = true
 	initFn := pkg.Func("init")
 	if initFn == nil || initFn.Blocks == nil {
+		return
+	}
+	if sn, ok := e.initCache[pkg]; ok {
+		for id, o := range sn.objs {
+			if _, have := st.heap[id]; !have {
+				st.heap[id] = o
+			}
+		}
+		for g, id := range sn.globals {
+			if _, have := st.globals[g]; !have {
+				st.globals[g] = id
+			}
+		}
 		return
 	}
 	for g := range e.initStoresOf(pkg) {
@@ -170,4 +210,6 @@ func (e *Engine) runInit(st *State, pkg *ssa.Package) {
 	e.rep.Models["package initializer executed: "+pkg.Pkg.Path()]++
 	fr := e.pushFrame(st, initFn, nil, retInit)
 	fr.lenient = true
+	fr.initPkg = pkg
+	fr.initStart = e.objSeq
 }
